@@ -235,3 +235,8 @@ def run(ctx):
         "non-trivial = scenario with at least one occurrence / ArtifactKit header"
     )
     ctx.exhaustive = True
+
+    # the command line face of the ArtifactKit scanner: beacon-artifact (CliTools.tla)
+    from vt.checks import xcli
+
+    xcli.artifact_cli_part(ctx)
